@@ -349,6 +349,11 @@ theorem insert_in_place_is_the_source_u64 {D : Type} (g : Rng D) (fuel e sz cap 
       insert cfg64 g (fuel + 1) (.heap sz cap bits a) e d = armOut cap bits d (.ok res)) :=
   ⟨fun hc h => insert_dense_is_the_source_u64 g fuel e sz cap a hc d h,
    fun bits hb h => insert_heap_is_the_source_u64 g fuel e sz cap bits a he hb d h⟩
+/-- … and the plain-table arm for an element other than the placeholder (found / empty bucket / `p_insert` with room) -/
+theorem insert_in_place_plain_is_the_source_u64 {D : Type} (g : Rng D) (fuel e sz cap bits : Nat) (a : Tbl)
+    (hb : bits = 0 ∨ bits > 64) (d : D) {res : (Bool × Nat) × Array Nat} (h : Gen.insert_big_64 e sz bits a = .ok res) :
+    insert cfg64 g (fuel + 1) (.heap sz cap bits a) e d = armOut cap bits d (.ok res) :=
+  insert_big_is_the_source_u64 g fuel e sz cap bits a hb d h
 
 end C01
 
